@@ -459,17 +459,20 @@ impl Family for C13Thr {
     let n = rng.range(2, 4);
     // some subscribers stay while the others leave and the source goes on emitting
     let emit_during_leave = rng.below(2) == 0;
+    // the newcomer is only judged while somebody stays; without a newcomer everybody may leave
+    // while the source is still emitting
+    let with_late_joiner = emit_during_leave && rng.below(2) == 0;
     Json::obj(vec![
       ("kind", Json::str(*rng.pick(&["ref_count", "replay"]))),
       ("waits", Json::Arr((0..n).map(|_| Json::Int(rng.below(6) as i64)).collect())),
       ("leave_waits", Json::Arr((0..n).map(|_| Json::Int(rng.below(6) as i64)).collect())),
       ("share_observable", Json::Bool(rng.below(2) == 0)),
-      ("stay", Json::Arr((0..n).map(|k| Json::Bool(emit_during_leave && (rng.below(2) == 0 || k == 0))).collect())),
+      ("stay", Json::Arr((0..n).map(|k| Json::Bool(emit_during_leave && (rng.below(2) == 0 || (k == 0 && with_late_joiner)))).collect())),
       ("emit_during_leave", Json::Bool(emit_during_leave)),
       ("emitter_wait", Json::Int(rng.below(8) as i64)),
       // the emitter ends with a terminal; a further subscriber arrives while the emitter is at work
       ("emitter_terminal", Json::str(if emit_during_leave { *rng.pick(&["none", "complete", "error", "error"]) } else { "none" })),
-      ("late_joiner_wait", Json::Int(if emit_during_leave && rng.below(3) != 0 { rng.below(10) as i64 } else { -1 })),
+      ("late_joiner_wait", Json::Int(if with_late_joiner { rng.below(10) as i64 } else { -1 })),
     ])
   }
   fn exec(&self, w: &Json, cfg: RunCfg) -> RunOut {
